@@ -451,6 +451,23 @@ theorem post_triggerNoCache {st : St} (hI : Inv st) {e : Nat} (he : e < st.frame
   refine post_bump hI he ?_ (fun s _ h1 h2 _ => ⟨h1, h2⟩)
   intro f; exact ⟨rfl, rfl, rfl, rfl⟩
 
+theorem Inv.clearCache {st : St} (hI : Inv st) : Inv { st with cache := [] } :=
+  ⟨hI.cur, hI.root, hI.frames, by intro c hc; simp at hc⟩
+
+/-- `functionChanged` touches a miss counter and the cache, never a store -/
+theorem post_functionChanged {st : St} (hI : Inv st) {w : Nat} (hw : w < st.frames.size) (old : Option Obj) :
+    Post (functionChanged w old) st (fun _ s => s.frames.size = st.frames.size ∧ ∀ e', storeOf s e' = storeOf st e') := by
+  unfold functionChanged
+  split
+  · split
+    · refine Post.bind (Q := fun _ s => s.frames.size = st.frames.size ∧ ∀ e', storeOf s e' = storeOf st e')
+        (post_bump hI hw ?_ (fun s _ h1 _ h3 => ⟨h1, h3⟩)) ?_
+      · intro f; exact ⟨rfl, rfl, rfl, rfl⟩
+      rintro _ s hIs _ ⟨h1, h2⟩
+      exact Post.modify hIs.clearCache (Nat.le_refl _) (Kept.of_frames rfl) ⟨h1, h2⟩
+    · exact Post.pure hI ⟨rfl, fun _ => rfl⟩
+  · exact Post.pure hI ⟨rfl, fun _ => rfl⟩
+
 /-- what `makeRef orig name` guarantees -/
 def RefQ (st : St) (orig : Nat) (name : String) : Option Obj → St → Prop := fun r s =>
   OkOpt r s ∧ s.frames.size = st.frames.size ∧ s.cur = st.cur ∧ FV st s ∧
@@ -840,6 +857,24 @@ theorem post_envCreate {st : St} (hI : Inv st) {e : Nat} (he : e < st.frames.siz
   · intro _ s' hIs' hle _
     exact Post.pure hIs' (okObj_mono hle _ hv)
 
+theorem WOk.of_same {st s : St} (h : ∀ e', storeOf s e' = storeOf st e') {e : Nat} {name : String} {w : Obj}
+    (hw : WOk st e name w) : WOk s e name w := fun hc u hu => hw hc u (by rw [← h e]; exact hu)
+
+/-- `envStoreAt`: the store part of `update` -/
+theorem post_envStoreAt {st : St} (hI : Inv st) {writer e : Nat} (hwr : writer < st.frames.size)
+    (he : e < st.frames.size) (name : String) {v : Obj} (hv : okObj st.frames.size v = true)
+    (hnr : notRef v = true) (hw : WOk st e name v) : Post (envStoreAt writer e name v) st OkO := by
+  obtain ⟨f, hf⟩ := frame_exists he
+  unfold envStoreAt
+  refine Post.bind_read (runM_getFrame hf) ?_
+  refine Post.bind (post_functionChanged hI hwr _) ?_
+  rintro _ s hIs hle ⟨hsz, hsame⟩
+  refine Post.bind (Q := fun _ _ => True) ?_ ?_
+  · refine post_store (name := name) hIs (by omega) (by rw [hsz]; exact hv) hnr (hw.of_same hsame) ?_
+    intro f; exact ⟨rfl, rfl, rfl, rfl⟩
+  · intro _ s' hIs' hle' _
+    exact Post.pure hIs' (okObj_mono (by omega) _ hv)
+
 theorem post_envUpdate {st : St} (hI : Inv st) {e : Nat} (he : e < st.frames.size) (name : String) {found val : Obj}
     (hfound : okObj st.frames.size found = true)
     (hval : okObj st.frames.size val = true)
@@ -847,33 +882,16 @@ theorem post_envUpdate {st : St} (hI : Inv st) {e : Nat} (he : e < st.frames.siz
     (hw2 : notRef found = true → ∀ w, runM (valueOf val) st = (.ok w, st) → WOk st e name w) :
     Post (envUpdate e name found val) st OkO := by
   unfold envUpdate
-  dsimp only
-  -- the store part
   have hrest : ∀ v, okObj st.frames.size v = true → notRef v = true → runM (valueOf val) st = (.ok v, st) →
-      Post (match (match found with | Obj.ref re rn => (re, rn) | _ => (e, name)) with
-        | (e, name) => do
-          modifyFrame e fun f =>
-              { store := setStore f.store name v, outer := f.outer, depth := f.depth, cacheKey := f.cacheKey,
-                function := f.function, getMiss := f.getMiss, cantCache := f.cantCache,
-                numSet := if (f.depth == 0) = true then f.numSet + 1 else f.numSet }
-          pure v) st OkO := by
+      Post (envStoreAt e (updTarget e name found).1 (updTarget e name found).2 v) st OkO := by
     intro v hv hnr hrun
-    have this : (match found with | Obj.ref re rn => (re, rn) | _ => (e, name)).1 < st.frames.size ∧
-        WOk st (match found with | Obj.ref re rn => (re, rn) | _ => (e, name)).1
-          (match found with | Obj.ref re rn => (re, rn) | _ => (e, name)).2 v := by
+    have this : (updTarget e name found).1 < st.frames.size ∧
+        WOk st (updTarget e name found).1 (updTarget e name found).2 v := by
       cases found with
       | ref re rn =>
         refine ⟨by simp only [okObj, decide_eq_true_eq] at hfound; exact hfound, hw1 re rn v rfl hrun⟩
       | _ => exact ⟨he, hw2 rfl v hrun⟩
-    generalize (match found with | Obj.ref re rn => (re, rn) | _ => (e, name)) = p at this
-    obtain ⟨e', name'⟩ := p
-    have he' : e' < st.frames.size := this.1
-    dsimp only
-    refine Post.bind (Q := fun _ _ => True) ?_ ?_
-    · refine post_store (name := name') hI he' hv hnr this.2 ?_
-      intro f; exact ⟨rfl, rfl, rfl, rfl⟩
-    · intro _ s' hIs' hle _
-      exact Post.pure hIs' (okObj_mono hle _ hv)
+    exact post_envStoreAt hI he this.1 _ hv hnr this.2
   split
   · refine Post.bind (post_valueOf hI hval).and_run ?_
     rintro v s hIs _ ⟨⟨rfl, hv, hnr⟩, hrun⟩
@@ -941,11 +959,16 @@ theorem post_setNoChecks {st : St} (hI : Inv st) {e : Nat} (he : e < st.frames.s
         have hre : re < s.frames.size := by simpa [okObj] using hr _ rfl
         refine Post.bind (post_valueOf hIs hval') ?_
         rintro v s' hIs' _ ⟨rfl, hv, hnr⟩
+        obtain ⟨fre, hfre⟩ := frame_exists hre
+        refine Post.bind_read (runM_getFrame hfre) ?_
+        refine Post.bind (post_functionChanged hIs (by omega) _) ?_
+        rintro _ s2 hIs2 hle2 ⟨hsz2, _⟩
         refine Post.bind (Q := fun _ _ => True) ?_ ?_
-        · refine post_store (name := rn) hIs hre hv hnr (fun h => by rw [hc] at h; exact Bool.noConfusion h) ?_
+        · refine post_store (name := rn) hIs2 (by omega) (by rw [hsz2]; exact hv) hnr
+            (fun h => by rw [hc] at h; exact Bool.noConfusion h) ?_
           intro f; exact ⟨rfl, rfl, rfl, rfl⟩
         · intro _ s'' hIs'' hle' _
-          exact Post.pure hIs'' (okObj_mono hle' _ hval')
+          exact Post.pure hIs'' (okObj_mono (by omega) _ hval')
       · exact post_envCreate hIs (by omega) name hval' (fun w _ h => by rw [hc] at h; exact Bool.noConfusion h)
 
 theorem run_inj {x : M α} {st s1 s2 : St} {a b : α} (h1 : runM x st = (.ok a, s1)) (h2 : runM x st = (.ok b, s2)) :
